@@ -6,5 +6,6 @@ pub mod gen;
 pub mod known;
 pub mod model;
 pub mod props;
+pub mod pyoracle;
 pub mod runner;
 pub mod util;
